@@ -18,7 +18,7 @@ and values within 32 eps * max |finite data| (dask interpolates with a different
 on its fast path: last axis, method linear).
 
 Domain: int8/int64/uint8/float32/float64; +-inf only in cases flagged ``inf`` (labelled facet
-``&inf``); q in [0, 100]; internal_method 'tdigest' needs the uninstalled ``crick`` (not generated).
+``&inf``); q in [0, 100]; internal_method 'tdigest' needs the uninstalled ``crick`` (see Parameter audit).
 
 Labels ``percentile:method=<m>&<multi-chunk|single-chunk>:<symptom>``; a wrong end point is reported once per case and
 is then left out of the monotonicity check, so ``not-monotone`` means a decrease among the remaining values.  The inf
@@ -34,6 +34,26 @@ Calibration (unchanged tree)
 * a wrong end point is excluded from the monotonicity facet (one mechanism, one label per case).
 * lazy dtype of da.percentile / nanpercentile is not compared (NumPy's dtype is value dependent with NaN).
 * genuine findings: PENDING / findings_proposed/C32.md.
+
+Parameter audit (cases flagged ``x``, an own stream after the original one)
+* percentile: ``internal_method`` "dask" / "default" / "tdigest" (tdigest with a non-linear method is documented to fall back to
+  the dask algorithm and is generated; tdigest + linear needs ``crick``, which is NOT installed: a few such cases are generated
+  and counted environment-limited when dask says so), the deprecated spellings ``interpolation=<m>`` and
+  ``percentile(a, q, "dask"[, interpolation=<m>])`` (both announced by a FutureWarning, i.e. still supported), q as ndarray /
+  tuple / NumPy scalar / empty list / with repeated values, blocks of > 255 elements (also not the last one), >= 12 blocks,
+  EMPTY blocks (first / interior / last), int16 / int32 / uint16 / uint32 / uint64, the array reached through concatenate /
+  a reversing slice / rechunk instead of from_array.  Same oracle as part A, plus: a non-canonical spelling must give the
+  identical result to ``percentile(a, q, method=<m>)`` (label ``percentile:spelling=<facet>:differs-from-method-keyword``;
+  the bounds oracle alone cannot see a dropped ``interpolation=`` because every method stays within [min, max]).
+  Exceptions of the spelling facets are labelled ``percentile:legacy-positional-internal-method:<exc>`` /
+  ``percentile:internal_method=tdigest&method!=linear:<exc>`` / ``percentile:empty-q:<exc>`` (argument shuffling, one mechanism each).
+* nanpercentile: all 13 NumPy methods, a tuple of axes (also negative), axis=None on a single block, ``weights=`` (method
+  inverted_cdf; of the array's shape or 1-d along the axis, NumPy or dask array; np.nanpercentile only takes full-shape weights,
+  so 1-d weights are compared with their broadcast), ``interpolation=``, q as ndarray / tuple / NumPy scalar, 4-d arrays with
+  pairwise different lengths, reduced axes of 256..1000 (fast path with big blocks) and > 1000 elements (fast path bails out),
+  int8 / int32.  Path features ``&weights=full|1d``, ``&axis=tuple``, ``&axis=None`` are part of the label (branches of their own).
+* not generated: datetime64 / string data (``_percentile`` has branches for them, but the statement speaks of NUMERIC arrays and
+  min/max/"non-decreasing" need an order the oracle would have to define); median / nanmedian / quantile / nanquantile are C22's.
 
 Sibling facet (vf/mon/siblings.py): every case is also built a second time with ONE result-relevant parameter changed
 (another q / method (percentile), another q / method / axis / keepdims (nanpercentile)).
@@ -61,6 +81,10 @@ RULE = ("part A cases = (data vector, chunking, method, sorted q vector or scala
         "Random part: lengths 1..60, int8/int64/uint8/float32/float64, small alphabets / wide values / +-inf facet, random "
         "chunkings, random sorted q vectors (0 and 100 included in most) and scalar q. part B cases = (shape 1-3 d, "
         "float/int data with NaN (all-NaN slices, inf facet), chunking, axis, q scalar|vector, method, keepdims). "
+        "Parameter-audit stream (1000 / 27000 cases): percentile with internal_method dask|default|tdigest-fallback, the deprecated "
+        "interpolation= / positional spellings, q as ndarray|tuple|NumPy scalar|empty|repeated, blocks > 255 elements, >= 12 blocks, "
+        "empty blocks, five further integer dtypes, concatenate|reversed|rechunk routes; nanpercentile with all 13 methods, tuple / "
+        "None axis, weights, interpolation=, q forms, 4-d, reduced axes of 256..1300 elements. "
         "non-trivial = percentile axis (A) or any axis (B) split into >= 2 chunks; distinct = distinct case descriptions.")
 ASSUMPTIONS = ["NumPy 2.x min/max and nanpercentile are the reference", "sync scheduler"]
 BUDGET = {"quick": 40, "thorough": 500}
@@ -78,6 +102,21 @@ FLOORS = {  # ~45 % of the counts measured on the unchanged tree (quick: 5150 ca
 # quick floor x (thorough / quick stream size) x 0.6.  A run in which the facet never executed is INCONCLUSIVE.
 FLOORS["quick"]["counters"].update({"siblings_built": 2300, "siblings_computed_together": 340, "siblings_with_different_values": 255})
 FLOORS["thorough"]["counters"].update({"siblings_built": 26000, "siblings_computed_together": 3900, "siblings_with_different_values": 2900})
+# parameter-audit families (own stream of 1000 / 27000 cases): ~45 % of the smallest count of the five quick seeds; thorough =
+# quick floor x 27 x 0.8
+_XF = {"nanpercentile_4d": 48, "nanpercentile_axis_none": 18, "nanpercentile_axis_tuple": 53, "nanpercentile_axis_tuple_split": 48,
+       "nanpercentile_further_dtypes": 49, "nanpercentile_further_methods": 134, "nanpercentile_interpolation_kw": 17,
+       "nanpercentile_q_not_list_or_python_scalar": 100, "nanpercentile_reduced_axis_256_1000": 10,
+       "nanpercentile_reduced_axis_gt_1000": 4, "nanpercentile_weights": 38, "percentile_block_gt_255": 47,
+       "percentile_block_gt_255_not_last": 38, "percentile_empty_block": 67, "percentile_empty_q": 23,
+       "percentile_further_dtypes": 100, "percentile_ge_12_blocks": 43, "percentile_internal_method_kw": 64,
+       "percentile_interpolation_kw": 36, "percentile_legacy_positional": 80, "percentile_not_from_array": 100,
+       "percentile_q_not_list_or_python_scalar": 170, "percentile_repeated_q": 57, "percentile_tdigest_fallback": 33,
+       "percentile_spelling_compared": 170}
+FLOORS["quick"]["counters"].update(_XF)
+FLOORS["thorough"]["counters"].update({k: int(v * 27 * 0.8) for k, v in _XF.items()})
+for _t in ("quick", "thorough"):
+    FLOORS[_t]["sets"].update({"nanpercentile_methods": 12, "nanpercentile_weight_kinds": 3, "percentile_spelling": 24})
 EXHAUSTIVE_SPACE = {
     "quick": "all 255 chunkings of arrays of length 1..8 x 2 data vectors with duplicates x 5 methods, q=(0,10,25,50,75,90,100)",
     "thorough": "all 255 chunkings of length 1..8 x 4 data vectors x 5 methods + every array over {0,1,3} of length <= 5 x every chunking x 5 methods",
@@ -107,6 +146,9 @@ PENDING = {  # genuine on the unchanged tree; witnesses, mechanisms and the one 
     "percentile:method=midpoint&inf:nan-result": "NaN for data containing inf (np.percentile itself)",
     "percentile:method=linear&inf:q0-not-min": "NaN chunk percentiles poison the merge: q=0 is not -inf",
     "percentile:method=midpoint&inf:q0-not-min": "same",
+    # 5. parameter audit: the deprecated positional spelling (fix: fixes_ready/C32_01_percentile_legacy_internal_method_spelling.patch)
+    "percentile:legacy-positional-internal-method:ValueError@array/percentile.py:_percentile":
+        "percentile(a, q, 'dask') warns that method= was renamed, then still hands 'dask' to np.percentile as the interpolation",
     # nanpercentile
     "nanpercentile:fast-path&float32:dtype": "_custom_nanquantile returns float64 for float32 input (fix in findings_proposed/C22.md, finding 5)",
     "nanpercentile:fast-path&inf:values": "_custom_nanquantile gives +-inf where NumPy computes inf-inf = NaN (no fix)",
@@ -548,6 +590,21 @@ def _run_a(case, ctx):
                 ctx.violation("percentile:%s:%s" % (feat, sy), msg, **detail)
     ctx.sample = {"data": x.tolist()[:12], "chunks": case["chunks"], "method": m, "q": qv.tolist(),
                   "result": None if pf is None else pf.tolist(), "rounding_tolerance": tol}
+    # ---- spelling facet: a renamed / defaulted spelling is the SAME call (FutureWarning "was renamed", "default" = "dask",
+    # tdigest falls back to dask for non-linear methods): identical result to the plain method=<m> call
+    if r is not None and pf is not None and (opts.get("kw", "method") != "method" or opts.get("im")):
+        try:
+            canon = _call_a(_mk_dx(x, chunks, opts.get("route", "from_array")), q, m, {"qform": opts.get("qform", "list")})
+            cpf = np.atleast_1d(np.asarray(canon.compute(scheduler="sync"))).astype("float64")
+        except Exception:  # noqa: BLE001  (the plain call failing is the business of the main oracle on another case)
+            cpf = None
+        if cpf is not None:
+            ctx.count("percentile_spelling_compared")
+            if not (cpf.shape == pf.shape and np.array_equal(cpf, pf, equal_nan=True)):
+                facet = opts["kw"] if opts.get("kw", "method") != "method" else "internal_method=" + opts["im"]
+                ctx.violation("percentile:spelling=%s:differs-from-method-keyword" % facet,
+                              "this spelling gives %r, percentile(a, q, method=%r) gives %r" % (pf.tolist()[:8], m, cpf.tolist()[:8]),
+                              chunks=case["chunks"][:20], q=qv.tolist(), spelling=opts)
     # ---- sibling facet: the same array with another q / method must not share keys with this result ----------------
     if r is not None:
         import dask.array as da
